@@ -49,7 +49,7 @@ def gen_layout(rng):
     top = "%s.%s" % (names[-1], ext_of[names[-1]])
     inputs = [top]
     kind = rng.pick(["plain", "plain", "parent_str", "parent_list", "parent_wild", "parent_false", "parent_null", "parent_bad", "symlink",
-                     "missing", "cycle", "multi", "virtual", "parent_second_doc", "link_graph"])
+                     "missing", "cycle", "multi", "virtual", "parent_second_doc", "link_graph", "multi_shared"])
     extra_base = {"x.%s" % rng.pick(EXTS): ("reg", [{"xbase": 1, "shared": "x"}]),
                   "y.%s" % rng.pick(EXTS): ("reg", [{"ybase": 2, "shared": "y"}])}
     topdocs = files[top][1]
@@ -87,6 +87,16 @@ def gen_layout(rng):
         if rng.chance(1, 3):
             files["l2.x.y.%s" % ext_of[names[-1]]] = ("link", inputs[0])
             inputs = ["l2.x.y.%s" % ext_of[names[-1]]]
+    elif kind == "multi_shared":
+        # several command-line inputs that inherit from the SAME base: each input's chain is loaded and applied on its own
+        files = {}
+        e = {n: rng.pick(EXTS) for n in ("s", "s.x", "s.y", "s.x.deep")}
+        files["s.%s" % e["s"]] = ("reg", layer_docs(rng, 0, 1 + rng.below(2)))
+        files["s.x.%s" % e["s.x"]] = ("reg", [{"fromx": 1, "shared": "x"}])
+        files["s.y.%s" % e["s.y"]] = ("reg", [{"fromy": 2, "shared": "y"}])
+        files["s.x.deep.%s" % e["s.x.deep"]] = ("reg", [{"deep": 3}])
+        pool = ["s.x.%s" % e["s.x"], "s.y.%s" % e["s.y"], "s.x.deep.%s" % e["s.x.deep"], "s.%s" % e["s"]]
+        inputs = [rng.pick(pool) for _ in range(2 + rng.below(2))]
     elif kind == "link_graph":
         # a small directory in which any name may be a regular layer or a link to any other name (also to itself,
         # to its own child layer, to nothing): parents by filename run through the links, cycles included
